@@ -20,7 +20,7 @@ from sim import world as W  # noqa: E402
 BUDGET_STEPS = 1_500_000
 
 
-def make_plan(r, n_cycles, kinds=("like", "fs"), like_range=(2, 45), fs_range=(8, 120)):
+def make_plan(r, n_cycles, kinds=("like", "like", "fs", "fs", "signal"), like_range=(2, 45), fs_range=(8, 120)):
     """Kill-and-resume plan with n_cycles kills (coordinates per incarnation)."""
     plan = []
     downtimes = []
@@ -38,6 +38,10 @@ def make_plan(r, n_cycles, kinds=("like", "fs"), like_range=(2, 45), fs_range=(8
             if r.random() < 0.3:
                 f["prefix"] = r.choice([0, 1, 100, 5000])
             plan.append(f)
+        elif kind == "signal":
+            # a termination signal at a seeded line event (the handler nessai registered runs there)
+            plan.append({"inc": inc, "kind": "signal", "signum": r.choice([15, 15, 2, 14]),
+                         "line_event": r.randrange(800, 60000) if inc == 0 else r.randrange(800, 20000)})
         elif kind == "stall":
             plan.append({"inc": inc, "kind": "stall", "call": r.randrange(3, 80), "dt": r.choice([1.0, 30.0, 700.0])})
         downtimes.append(r.choice([1.0, 60.0, 3600.0, 1e5]))
@@ -57,7 +61,7 @@ def build_world(seed, n, sampler, monitors, r, p_fault=0.5, max_cycles=3, stalls
         "monitors": list(monitors),
         "plan": plan,
         "downtimes": downtimes,
-        "max_incarnations": len([f for f in plan if f["kind"].startswith("kill")]) + 2,
+        "max_incarnations": len([f for f in plan if f["kind"].startswith("kill") or f["kind"] == "signal"]) + 2,
         "budget_steps": BUDGET_STEPS,
     }
     if extra:
